@@ -144,6 +144,61 @@ def r17_3(ctx):
     ctx.decide('R17.3', it.qual, 'geo given: f evaluated at the mapped nodes', ok or None, it.node)
 
 
+ABS_FUNCS = ('np.abs', 'abs', 'np.fabs', 'np.absolute', 'numpy.abs', 'fabs')
+
+
+def r17_6(ctx):
+    """One volume measure: the load vector (inner_products), integrate() and the compiled mass/L2 forms all weight by
+    |det J|.  A signed determinant at one site makes right-hand side and system matrix disagree for orientation-
+    reversing geometries."""
+    n = 0
+    for modname in ('pyiga.assemble', 'pyiga.approx', 'pyiga.utils', 'pyiga.geometry', 'pyiga.hierarchical', 'pyiga._hdiscr'):
+        try:
+            unit = ctx.prog.unit(modname)
+        except AnchorMissing:
+            continue
+        for fi in ctx.prog.funcs_in(modname, include_nested=True):
+            for c in own_nodes(fi.node):
+                if not (isinstance(c, ast.Call) and (call_name(c) or '').split('.')[-1] == 'determinants'):
+                    continue
+                n += 1
+                p = parent(c)
+                if isinstance(p, ast.Call) and call_name(p) in ABS_FUNCS:
+                    ctx.met('R17.6', fi.qual, src(p), p, 'integration weight |det J|')
+                    continue
+                # bound to a name: every later use must go through an absolute value before it is multiplied in
+                if isinstance(p, ast.Assign) and len(p.targets) == 1 and isinstance(p.targets[0], ast.Name):
+                    name = p.targets[0].id
+                    uses = [u for u in own_nodes(fi.node) if isinstance(u, ast.Name) and u.id == name and isinstance(u.ctx, ast.Load)
+                            and getattr(u, 'lineno', 0) > p.lineno]
+                    absd = [u for u in uses if isinstance(parent(u), ast.Call) and call_name(parent(u)) in ABS_FUNCS]
+                    mult = [u for u in uses if (isinstance(parent(u), ast.BinOp) and isinstance(parent(u).op, ast.Mult))
+                            or (isinstance(parent(u), ast.AugAssign) and isinstance(parent(u).op, ast.Mult))]
+                    if mult and not absd:
+                        ctx.violated('R17.6', fi.qual, src(p), mult[0],
+                                     'the signed Jacobian determinant is multiplied into the quadrature values (`%s`), while the compiled forms '
+                                     '(mass matrix) and the sibling sites weight by |det J|: for an orientation-reversing geometry the right-hand '
+                                     'side changes sign against the matrix' % src(parent(mult[0]))[:80])
+                    elif absd and (not mult or all(u.lineno >= min(a.lineno for a in absd) for u in mult)):
+                        ctx.undecided('R17.6', fi.qual, src(p), p, 'absolute value taken later; flow not followed')
+                    else:
+                        ctx.undecided('R17.6', fi.qual, src(p), p, 'use of the determinant not recognised')
+                else:
+                    ctx.undecided('R17.6', fi.qual, src(c), c, 'use of the determinant not recognised')
+    ctx.floor('R17.6', 'sites turning Jacobians into quadrature weights', n, 2)
+    vw = ctx.prog.func('pyiga.vform.VForm.__init__.<locals>._volume_weight') if ctx.prog.maybe_func('pyiga.vform.VForm.__init__.<locals>._volume_weight') else None
+    if vw is None:
+        cands = [f for q, f in ctx.prog.functions.items() if q.endswith('_volume_weight') and q.startswith('pyiga.vform.')]
+        vw = cands[0] if cands else None
+    if vw is None:
+        raise AnchorMissing('R17.6: vform volume weight')
+    r = guards.returns_of(vw.node)
+    dets = [c for c in ast.walk(vw.node) if isinstance(c, ast.Call) and call_name(c) == 'det']
+    ok = bool(dets) and all(isinstance(parent(c), ast.Call) and call_name(parent(c)) in ABS_FUNCS for c in dets)
+    ctx.decide('R17.6', vw.qual, src(r[-1]) if r else 'volume weight', ok if dets else None, r[-1] if r else vw.node,
+               'compiled forms weight by GaussWeight * |det J|', definite=True)
+
+
 def r17_5(ctx):
     it = ctx.prog.func(AP + '.interpolate')
     d = [s for s in own_nodes(it.node) if isinstance(s, ast.Assign) and src(s.targets[0]) == 'nodes']
@@ -164,3 +219,4 @@ def run(ctx):
     for o in ctx.obligations[before:]:
         o.rule = 'R17.4'
     r17_5(ctx)
+    r17_6(ctx)
